@@ -212,9 +212,57 @@ def lock_survives_restart():
     return s.steps
 
 
+def restart_in_height_2():
+    """height 1 is decided in round 0 by everybody; node 1 is killed in the NewHeight step of height 2 and started again: the
+    last commit (the precommits of height 1, which a proposer of height 2 must embed) has to be rebuilt from the stored
+    seen-commit."""
+    v = H(0, 1)
+    s = S().start().all_internal(1)
+    for n in (2, 3):
+        s.a('Peer', n, P(0, v, 1)).a('Peer', n, B(0, v)).all_internal(n)
+    for n in (1, 2, 3):
+        for by in (1, 2, 3):
+            if by != n:
+                s.a('Peer', n, V(0, 'pv', by, v))
+        s.all_internal(n)
+    for n in (1, 2, 3):
+        for by in (1, 2, 3):
+            if by != n:
+                s.a('Peer', n, V(0, 'pc', by, v))
+        s.all_internal(n)
+    s.a('Crash', 1).a('Restart', 1).all_internal(1)
+    s.a('Crash', 2).a('Restart', 2).all_internal(2)
+    return s.steps
+
+
+def skip_round_on_precommits():
+    """nodes 1 and 2 go through round 0 and reach the precommit step of round 1 while node 3 hears nothing; then node 3, still
+    in round 0, receives the round-1 precommits nil, nil and (Byzantine) w: +2/3 of any precommits of a later round without a
+    majority - it must move to round 1 WITH the proposer rotation of round 1 (and wait for the precommit timeout there)."""
+    w = H(1, 2)
+    s = S().start()
+    for n in (1, 2):
+        s.timeout(n, 0, 3).all_internal(n)                   # nobody handles node 1's proposal: prevote nil
+    s.a('Peer', 1, V(0, 'pv', 2, NIL)).a('Byz', 1, V(0, 'pv', 4, NIL)).all_internal(1)
+    s.a('Peer', 2, V(0, 'pv', 1, NIL)).a('Byz', 2, V(0, 'pv', 4, NIL)).all_internal(2)
+    s.a('Peer', 1, V(0, 'pc', 2, NIL)).a('Byz', 1, V(0, 'pc', 4, NIL))
+    s.a('Peer', 2, V(0, 'pc', 1, NIL)).a('Byz', 2, V(0, 'pc', 4, NIL))
+    s.all_internal(2)                                        # round 1: node 2 proposes w and prevotes it
+    s.timeout(1, 1, 3).all_internal(1)                       # node 1 does not hear the proposal: prevote nil
+    s.a('Peer', 1, V(1, 'pv', 2, w)).a('Byz', 1, V(1, 'pv', 4, NIL))
+    s.a('Peer', 2, V(1, 'pv', 1, NIL)).a('Byz', 2, V(1, 'pv', 4, NIL))
+    for n in (1, 2):
+        s.timeout(n, 1, 5).all_internal(n)                   # prevote-wait: precommit nil
+    s.a('Peer', 3, V(1, 'pc', 1, NIL)).a('Peer', 3, V(1, 'pc', 2, NIL)).a('Byz', 3, V(1, 'pc', 4, w))
+    s.all_internal(3)
+    return s.steps
+
+
 # per-scenario overrides of the scenario configuration and pseudo steps appended after TLC has followed the schedule
-CFG = {'many_rounds_then_restart': {'max_round': 4}, 'lock_survives_restart': {'crashes': 1, 'crash_set': [1]}}
+CFG = {'many_rounds_then_restart': {'max_round': 4}, 'lock_survives_restart': {'crashes': 1, 'crash_set': [1]},
+       'restart_in_height_2': {'crashes': 2, 'crash_set': [1, 2], 'max_height': 2, 'max_round': 1}}
 APPEND = {'many_rounds_then_restart': [['RealStartProbe', 2, 'realticker'], ['RealStartProbe', 1, 'realticker']]}
 
-ALL = {'many_rounds_then_restart': many_rounds_then_restart, 'lock_survives_restart': lock_survives_restart, 'lock_unlock': lock_unlock, 'relock_and_pol_proposal': relock_and_pol_proposal,
+ALL = {'restart_in_height_2': restart_in_height_2, 'skip_round_on_precommits': skip_round_on_precommits,
+       'many_rounds_then_restart': many_rounds_then_restart, 'lock_survives_restart': lock_survives_restart, 'lock_unlock': lock_unlock, 'relock_and_pol_proposal': relock_and_pol_proposal,
        'locked_without_proposal': locked_without_proposal, 'stale_polka_must_not_unlock': stale_polka_must_not_unlock}
